@@ -549,6 +549,48 @@ func runC15(w *World, r *Report) {
 			}
 		})
 		r.Check(news && sets, "C15.destination-walk-instantiates", "checkAndExtractToField resolves the target through "+resolver.Name(), resolver.Pos(), "the resolver instantiates nil embedded pointers (reflect.New, Set)", "the destination field is looked up with the source side's helper, for which a nil embedded pointer is an error of the request: a target field promoted through an embedded POINTER (struct{ *Base; H string }, target \"F\") is accepted by Compile and fails on every run, for every input ('field mapping through an embedded pointer that is nil') — the destination is a fresh value whose embedded pointer is always nil; the spelled-out path Base.F works")
+		// … at every step of the destination walk, not only the last: assignOne and checkAndExtractToField call no
+		// (reflect.Value, string) resolver of the module that cannot instantiate (the source side's)
+		for _, fname := range []string{"assignOne", "checkAndExtractToField"} {
+			f := w.Fn("compose", fname)
+			instrs(f, func(in ssa.Instruction) {
+				c, ok := in.(*ssa.Call)
+				if !ok {
+					return
+				}
+				sc := staticCallee(c)
+				if sc == nil || !w.inRepo(sc) || len(c.Call.Args) != 2 || !isReflectValue(c.Call.Args[0].Type()) {
+					return
+				}
+				if b, ok := c.Call.Args[1].Type().Underlying().(*types.Basic); !ok || b.Kind() != types.String {
+					return
+				}
+				res := sc.Signature.Results()
+				if res.Len() != 2 || !isReflectValue(res.At(0).Type()) {
+					return
+				}
+				// a field resolver by name: does it look a struct field up?
+				byName := false
+				instrs(sc, func(x ssa.Instruction) {
+					if ci, ok := x.(ssa.CallInstruction); ok && ci.Common().IsInvoke() && ci.Common().Method.Name() == "FieldByName" {
+						byName = true
+					}
+				})
+				if !byName {
+					return
+				}
+				n2, s2 := false, false
+				instrs(sc, func(x ssa.Instruction) {
+					switch calleeFullName(x) {
+					case "reflect.New":
+						n2 = true
+					case "(reflect.Value).Set":
+						s2 = true
+					}
+				})
+				r.Check(n2 && s2, "C15.destination-walk-instantiates", fmt.Sprintf("%s resolves a destination field through %s", fname, sc.Name()), c.Pos(), "the resolver instantiates nil embedded pointers", "an INTERMEDIATE element of a target path that is a field promoted through an embedded pointer (struct{ *Base }, paths Inner.V or M.k) is looked up with the erroring helper: Compile accepts the mapping and every run fails 'field mapping through an embedded pointer that is nil' — the same promoted field as the LAST element works")
+			})
+		}
 		// the deferred closures of addDependencyRelation capture their own copy of the mapping list
 		adr := w.Fn("compose", "WorkflowNode.addDependencyRelation")
 		var inP *ssa.Parameter
